@@ -278,8 +278,15 @@ def build_db(d):
 
 
 def run_query(db, q):
-    ft = q.get("ft")
     try:
+        return ["ok", sorted(f.id for f in make_iter(db, q))]
+    except Exception as ex:
+        return ["err", L.err_class(ex)]
+
+
+def make_iter(db, q):
+    ft = q.get("ft")
+    if True:
         if q["api"] == "region":
             kw = dict(completely_within=q["cw"], strand=q["strand"], featuretype=ft)
             form = q["form"]
@@ -317,9 +324,8 @@ def run_query(db, q):
                 it = db.children(q["id"], level=q["level"], featuretype=ft, limit=lim, completely_within=q["cw"])
             else:
                 it = db.parents(q["id"], level=q["level"], featuretype=ft, limit=lim, completely_within=q["cw"])
-        return ["ok", sorted(f.id for f in it)]
-    except Exception as ex:
-        return ["err", L.err_class(ex)]
+        return it
+
 
 
 def run_impl(case):
@@ -329,7 +335,38 @@ def run_impl(case):
         return {"build_error": L.err_class(ex), "rows": [], "rels": [], "res": []}
     rows = [list(r) for r in db.execute("SELECT id, seqid, featuretype, start, end, strand, bin FROM features ORDER BY rowid")]
     rels = [list(r) for r in db.execute("SELECT parent, child, level FROM relations ORDER BY rowid")]
-    return {"rows": rows, "rels": rels, "res": [run_query(db, q) for q in case["qs"]]}
+    # all queries are asked for first and then read in lock-step (one item from each in turn): an answer belongs to the call
+    # that asked, whatever else the same object is answering meanwhile
+    its, res = {}, [None] * len(case["qs"])
+    for i, q in enumerate(case["qs"]):
+        try:
+            its[i] = iter(make_iter(db, q))
+            res[i] = ["ok", []]
+        except Exception as ex:
+            res[i] = ["err", L.err_class(ex)]
+    while its:
+        for i in list(its):
+            try:
+                res[i][1].append(next(its[i]).id)
+            except StopIteration:
+                del its[i]
+            except Exception as ex:
+                res[i] = ["err", L.err_class(ex)]
+                del its[i]
+    res = [[r[0], sorted(r[1])] if r[0] == "ok" else r for r in res]
+    # features that arrive later, on a sequence the database had not seen, are found by region() like any others
+    try:
+        import gffutils
+        db.update([gffutils.Feature(seqid="chrLATER", source="src", featuretype="gene", start=5, end=50, strand="+", attributes={"ID": ["zz_later"]})],
+                  merge_strategy="create_unique", verbose=False)
+        late = [[f.id for f in db.region(region=("chrLATER", 1, 100))], [f.id for f in db.region(seqid="chrLATER")],
+                [f.id for f in db.region(region="chrLATER:1-100", completely_within=True)]]
+        if late != [["zz_later"]] * 3 and res:
+            res[0] = ["err", "Other"]
+    except Exception:
+        if res:
+            res[0] = ["err", "Other"]
+    return {"rows": rows, "rels": rels, "res": res}
 
 
 def coq_ft(ft):
